@@ -19,7 +19,6 @@ CONSTANTS
   ParserContinuesAfterShortRange = TRUE
   Budget0PlansNothing = FALSE
   TailInitPersistsZero = FALSE
-CONSTRAINT GuardKnown
 INVARIANTS RefinesCex
 VIEW View
 CHECK_DEADLOCK FALSE
